@@ -191,6 +191,7 @@ func runC04(c *Ctx, r *Rec) {
 	}
 	checkNoBlockingUnderLock(c, r, "D3-no-blocking-under-lock", qr)
 	checkNoReentryUnderLock(c, r, "D3-no-reentry-under-lock", qr)
+	checkNoSendUnderPlainLock(c, r, "D3-no-send-under-plain-lock", qr)
 	checkGuardedReferenceStaysInside(c, r, "D1-guarded-reference-stays-inside", qr)
 	r.floor("D2-lock-pairing", 1)
 	r.floor("D3-no-blocking-under-lock", 1)
@@ -533,6 +534,7 @@ func runC05(c *Ctx, r *Rec) {
 	r.floor("D4-lock-released", 1)
 	checkNoBlockingUnderLock(c, r, "D4-no-wait-under-lock", qr)
 	checkNoReentryUnderLock(c, r, "D4-no-reentry-under-lock", qr)
+	checkNoSendUnderPlainLock(c, r, "D4-no-send-under-plain-lock", qr)
 	checkTokenBalanceAtBirth(c, r, "D2-token-balance", qr)
 	// outputs of the plumbing helpers are closed when the input is (parked consumers are released)
 	{
@@ -1107,6 +1109,7 @@ func checkCloseGuard(c *Ctx, r *Rec, rule string, qr *queueRoles) {
 func checkTokenBalanceAtBirth(c *Ctx, r *Rec, rule string, qr *queueRoles) {
 	info := c.info("collection")
 	cms := c.methodsOf(qr.cls)
+	checkBornWithValues(c, r, rule, qr)
 	for _, name := range sortedKeys(cms) {
 		fd := cms[name]
 		// counting loops whose body sends on a channel (the token channel of the queue under construction)
@@ -1287,6 +1290,7 @@ func checkNoReentryUnderLock(c *Ctx, r *Rec, rule string, qr *queueRoles) {
 	if n == 0 {
 		r.skip(rule, "collection.QueueLike/lock-regions", "", "no lock region found in the methods of the queue")
 	}
+	checkTypeNoReentry(c, r, rule, qr.q)
 }
 
 // checkGuardedReferenceStaysInside: a local that is given the value of a guarded reference field
@@ -1335,5 +1339,111 @@ func checkGuardedReferenceStaysInside(c *Ctx, r *Rec, rule string, qr *queueRole
 		r.ok(rule, "collection.QueueLike/value-list", "", "no local is given the value list itself inside a lock region")
 	} else {
 		r.ok(rule, "collection.QueueLike/value-list-aliases", "", fmt.Sprintf("%d locals hold the value list; those not reported are used only while the mutex is held", n))
+	}
+}
+
+// checkBornWithValues: a class constructor that puts a queue together from a literal starts the
+// list of values and the channel of tokens in agreement.  A list that is built from the
+// constructor's argument in the literal itself holds values from birth; the function then has to
+// send the tokens for them too (the counting loop judged above), or hand the values to AddValue.
+func checkBornWithValues(c *Ctx, r *Rec, rule string, qr *queueRoles) {
+	if qr.listF == nil || qr.chanF == nil {
+		return
+	}
+	info := c.info("collection")
+	cms := c.methodsOf(qr.cls)
+	for _, name := range sortedKeys(cms) {
+		fd := cms[name]
+		if fd.Body == nil {
+			continue
+		}
+		params := map[types.Object]bool{}
+		for _, p := range paramObjs(info, fd) {
+			params[p] = true
+		}
+		var fromParam func(e ast.Expr, depth int) bool
+		fromParam = func(e ast.Expr, depth int) bool {
+			if depth > 4 || e == nil {
+				return false
+			}
+			hit := false
+			ast.Inspect(e, func(x ast.Node) bool {
+				id, ok := x.(*ast.Ident)
+				if !ok || hit {
+					return !hit
+				}
+				o := info.Uses[id]
+				if o == nil {
+					return true
+				}
+				if params[o] {
+					if isGoContainer(o.Type()) || isCollectionLike(o.Type()) {
+						hit = true
+					}
+					return true
+				}
+				if _, isVar := o.(*types.Var); isVar && o.Pos() >= fd.Body.Pos() && o.Pos() < fd.Body.End() {
+					if init := initOfDeep(info, fd, id); init != nil && fromParam(init, depth+1) {
+						hit = true
+					}
+				}
+				return true
+			})
+			return hit
+		}
+		inspectNoLit(fd.Body, func(x ast.Node) bool {
+			lit, ok := x.(*ast.CompositeLit)
+			if !ok {
+				return true
+			}
+			if n := derefNamed(info.TypeOf(lit)); n == nil || n.Origin() != qr.q.Origin() {
+				return true
+			}
+			var listInit ast.Expr
+			for _, el := range lit.Elts {
+				if kv, ok := el.(*ast.KeyValueExpr); ok {
+					if id, ok := kv.Key.(*ast.Ident); ok && info.Uses[id] == types.Object(qr.listF.Origin()) || ok && id.Name == qr.listF.Name() {
+						listInit = kv.Value
+					}
+				}
+			}
+			if listInit == nil {
+				return true
+			}
+			construct := c.fdName(fd) + "/born-with-values"
+			if !fromParam(listInit, 0) {
+				r.ok(rule, construct, c.pos(lit.Pos()), "the list of the new queue is not built from the constructor's argument: it starts empty, like the channel")
+				return true
+			}
+			// tokens for the initial values: a send on a channel of the token type, or AddValue on the new queue
+			supplies := false
+			ast.Inspect(fd.Body, func(y ast.Node) bool {
+				switch z := y.(type) {
+				case *ast.SendStmt:
+					if t, ok := info.TypeOf(z.Chan).Underlying().(*types.Chan); ok && types.Identical(t.Elem(), qr.chanF.Type().Underlying().(*types.Chan).Elem()) {
+						supplies = true
+					}
+				case *ast.CallExpr:
+					if fn := calleeOf(info, z); fn != nil && !fn.Exported() {
+						// a private helper may do the sending
+						if d := c.declOf(fn); d != nil && d.Body != nil {
+							ast.Inspect(d.Body, func(w ast.Node) bool {
+								if _, ok := w.(*ast.SendStmt); ok {
+									supplies = true
+								}
+								return true
+							})
+						}
+					}
+				}
+				return true
+			})
+			if supplies {
+				r.ok(rule, construct, c.pos(lit.Pos()), "the list is built from the argument and the function sends tokens")
+			} else {
+				r.fail(rule, construct, c.pos(lit.Pos()), fmt.Sprintf("the new queue's list %s is built from the constructor's argument (%s) while its channel %s is freshly made and nothing in %s sends a token: the queue is born with values that GetSize, IsEmpty and RemoveHead do not see", qr.listF.Name(), exprStr(listInit), qr.chanF.Name(), fd.Name.Name))
+			}
+			return true
+		})
 	}
 }
